@@ -649,6 +649,59 @@ func c07LayouterHostile(r *run.Run) {
 		})
 }
 
+// Layouter on all ordered pairs of short strings: the buffer a Layouter reuses between calls must not
+// carry anything over (glyphs inserted by a multiple substitution land in slots that held positioned
+// glyphs of the previous call).
+func c07LayouterPairs(r *run.Run) {
+	alphabet := []rune{'A', 'B', 'M', 'L'}
+	gsubs := []int{2, 3, 5, 1} // GSUB2 A->AM B->XYA; GSUB2 A->AA; GSUB4 AAA->X AA->Y AB->L; GSUB1.2
+	var first, second []string
+	allStrings(alphabet, 3, func(s string) bool { first = append(first, s); return true })
+	allStrings(alphabet, 4, func(s string) bool { second = append(second, s); return true })
+	r.Explore(explore.Config{Name: "C07.layouter-pairs", Deadline: r.PartDeadline(0.3)},
+		fmt.Sprintf("sfnt.Layouter on fonts with one of 4 GSUB lookups (two multiple substitutions, ligatures, single) and every GPOS lookup of the menu, GDEF with classes: ALL ordered pairs of strings (first of length <= 3, second <= 4 over {A,B,M,L}: %d x %d): Layout(second) on the Layouter that has just laid out the first equals Layout(second) on a fresh Layouter", len(first), len(second)),
+		func(c *explore.Ctx) {
+			gs := gen.GsubSimple[gsubs[c.Choose(len(gsubs), "gsub lookup")]]
+			gp := gen.GposSimple[c.Choose(len(gen.GposSimple), "gpos lookup")]
+			f := c19Font(true)
+			f.Gdef, _ = gen.Gdef(0)
+			f.Gsub = gsubInfo("liga", gen.MakeLookup(gs.Type, gen.Flags[0], gs.Sub()))
+			f.Gpos = gsubInfo("kern", gen.MakeLookup(gp.Type, gen.Flags[0], gp.Sub()))
+			desc := gs.Name + "; " + gp.Name
+			c.Sample(func() any { return desc })
+			c.Outcome(desc)
+			var bad string
+			if p := guard(func() {
+				fresh := make([]string, len(second))
+				for i, s2 := range second {
+					lay, err := f.NewLayouter(language.Und, nil, nil)
+					if err != nil {
+						bad = "NewLayouter: " + err.Error()
+						return
+					}
+					fresh[i] = fmtInfos(lay.Layout(s2))
+				}
+				lay, _ := f.NewLayouter(language.Und, nil, nil)
+				for _, s1 := range first {
+					for i, s2 := range second {
+						lay.Layout(s1)
+						if got := fmtInfos(lay.Layout(s2)); got != fresh[i] {
+							bad = fmt.Sprintf("after Layout(%q), Layout(%q) gives [%s], a fresh Layouter gives [%s]", s1, s2, got, fresh[i])
+							return
+						}
+					}
+				}
+			}); p != "" {
+				c.Fail("C07.panic", "layouter pairs: "+explore.PanicSignature(p), "Layout panics: %s; %s", p, desc)
+				return
+			}
+			c.Nontrivial()
+			if bad != "" {
+				c.Fail("C07.history", "Layouter pairs: "+gs.Name, "%s; lookups %s", bad, desc)
+			}
+		})
+}
+
 // tables obtained from bytes: every single-field corruption of encoded
 // well-formed tables that gtab.Read accepts is applied.
 func c07Bytes(r *run.Run) {
@@ -732,6 +785,7 @@ func init() {
 		c07Simple(r)
 		c07HistoryPairs(r)
 		c07LayouterHostile(r)
+		c07LayouterPairs(r)
 		c07Structures(r)
 		c07Bytes(r)
 		c07MapOrder(r)
